@@ -106,6 +106,28 @@ def run_real(case):
     rec = mrun.run(spec, setup=mon.attach)
     counts = e2e.base_counts(rec)
     counts.update(mon.counts())
+    # second clause, user side: the values recorded for an interpolation
+    # point were returned by the user functions AT THAT VERY POINT, i.e.
+    # every user call of an evaluation round was made at build_x(point)
+    npts = 0
+    for ev in rec.run.evals:
+        if ev["ret"] is None or mon.viols:
+            continue
+        want = np.asarray(ev["pb"].build_x(ev["x"]), dtype=float)
+        for e in rec.run.log[ev["log0"]:ev.get("log1", ev["log0"])]:
+            if e["t"] in ("obj", "con"):
+                npts += 1
+                if e["x"].shape != want.shape or \
+                        e["x"].tobytes() != want.tobytes():
+                    from vlib.oracles import V
+                    mon.viols.append(V(
+                        "recorded_value_other_point",
+                        f"evaluation {ev['i']}: the {e['t']} function was "
+                        f"called at {e['x'].tolist()[:4]} but the value is "
+                        f"recorded for the point {want.tolist()[:4]}",
+                        mechanism="recorded_other_point"))
+                    break
+    counts["user_call_points_checked"] = npts
     if case["idx"] % 10 == 0:
         mon.viols += e2e.audit(spec, rec, counts)
     nmod = 0
